@@ -21,6 +21,7 @@ CLAIM = (
     "(ESC-TAB, RANGE-END, shared with C16); list sizes reach minOccurs/maxOccurs from the matching bound (OCCURS, shared with C14)."
     " SKIPS: the loops of the functions in scope have no more `continue`, `break` or in-loop `return` statements than the reference "
     "read on the unchanged tree (baselines/skips.json): a new skip means elements that were handled are no longer handled."
+    " HEX-CLASS: the character classes for hexadecimal digits in the regular expressions that find \\x / \\u / \\U escapes admit both cases (regex AST from re._parser). ANCHOR-ATOMS (shared with C06): the front end accepts only patterns with one top-level alternative, first ^ and last $."
 )
 NOTE = (
     "Oracles: XSD single-character escapes `\\\\n \\\\r \\\\t \\\\\\\\ \\\\| \\\\. \\\\? \\\\* \\\\+ \\\\( \\\\) \\\\{ \\\\} \\\\- \\\\[ \\\\] \\\\^`; the five-row XSD type table. "
